@@ -29,7 +29,7 @@ func SubmitWithHelpers(
 
 	// Handle errors returned by Submit
 	if err != nil {
-		if errors.Is(err, context.Canceled) {
+		if errors.Is(err, context.Canceled) || errors.Is(err, coreda.ErrContextCanceled) {
 			logger.Debug("DA submission canceled via helper due to context cancellation")
 			return coreda.ResultSubmit{
 				BaseResult: coreda.BaseResult{
